@@ -574,6 +574,91 @@ STRINGS = ["", "2.0", "Sk", "température °C", "\U0001f321 ok", "a\"b\\c", "lin
            "١٢", "id", "type", "sensor_id", "null", "é"]
 BIG = 10 ** 20
 
+# Strings that look like the FILE FORMAT: a stored string (a value, a description, a sketch name / version, a protocol
+# version) is just text to save and load, whatever JSON syntax, comment syntax, literal or escape it spells.  A save that
+# escapes less than it must, or a load that treats the file's text before / besides the JSON parser (tolerance for
+# hand-edited files, comment stripping, a BOM, normalising blanks or line ends), changes such a string and nothing else.
+JSON_FRAGMENTS = [",}", ",]", ", }", ",\t]", ",\n}", ",\r\n  ]", ",", "{", "}", "[", "]", "{}", "[]", "[,]", ":", "\": \"", "\"", "\"\"",
+                  "'", "\\", "\\\\", "\\\"", "\\u0041", "\\ud83c", "\\n", "\\x41", "\\/", "/", "//", "/*", "*/", "#", "<!--", "null",
+                  "true", "false", "None", "NaN", "-Infinity", "1e5", "-0", "0x1F", "01", "\n", "\r\n", "\r", "\t", "\x08\x0c",
+                  "\x7f", "\x1f", "\ufeff", "\u2028", "\u00a0", "&quot;", "%7D", "\"},\n  \"2\": {"]
+ORDINARY = ["Hall display", "21.5", "Grön", "v", "on", "off:0", "10", "a b", "é"]
+
+
+JSONISH_PAYLOADS = ["{\"a\": [1, 2, ], \"b\": null,\t} // \\u0041 \\", "/* \"x\" */ [,] # {k: 'v' , }\ufeff"]
+
+
+def jsonish_text(rng) -> str:
+    """A text assembled from fragments of JSON / comment / escape syntax and ordinary words: things like `[1,2,]`,
+    `{k:1, }`, `"a": null, // x`, with and without blanks between the pieces."""
+    n = rng.randint(2, 7)
+    parts = [rng.choice(JSON_FRAGMENTS) if rng.random() < 0.65 else rng.choice(ORDINARY) for _ in range(n)]
+    return rng.choice(["", "", " ", "  "]).join(parts)
+
+
+def jsonish_strings(rng, n_random: int):
+    """(kind, string): every fragment alone; embedded in ordinary text; with leading / trailing blanks; doubled (the
+    second occurrence starts where the first ended); very long; whole documents in the file's own layout (what save
+    itself writes, a record with a comma before the closing brace, a commented file) as ONE string; then random
+    assemblies."""
+    out = []
+    for f in JSON_FRAGMENTS:
+        out.append(("alone", f))
+    for i, f in enumerate(JSON_FRAGMENTS):
+        w1, w2 = ORDINARY[i % len(ORDINARY)], ORDINARY[(i + 3) % len(ORDINARY)]
+        out.append(("embedded", [f"{w1} {f} {w2}", f"{w1}{f}{w2}", f"{w1}{f}", f"{f}{w2}"][i % 4]))
+    for i, f in enumerate(JSON_FRAGMENTS[::4]):
+        out.append(("outer blanks", [" " + f, f + "  ", "\t" + f + "\n", " " + f + " "][i % 4]))
+        out.append(("doubled", f + f))
+    for f in JSON_FRAGMENTS[::9]:
+        out.append(("very long", f * 150))
+        out.append(("very long", "x" * 1000 + f + "y" * 1000))
+    own = json.dumps({"1": {"children": {}, "node_id": 1, "sketch_name": "a\"b", "sleeping": False}}, sort_keys=True, indent=2)
+    out += [("document", own), ("document", own.replace("\n}", ",\n}").replace("{}", "{ , }")),
+            ("document", "[1, 2,\t3 ,\n]"), ("document", "{k:1,l:[2,],}"), ("document", "{\"a\": [1, 2, ], \"b\": null, } // c"),
+            ("document", "/* {\"1\": 2} */ # x\n{\"k\": \"v\\u0041\\\\\",\n}\n"), ("document", "\ufeff{}"), ("document", "[[[[[[[[[[,]]]]]]]]]]"),
+            ("document", "".join(JSON_FRAGMENTS)), ("document", " ".join(reversed(JSON_FRAGMENTS)))]
+    for _ in range(n_random):
+        out.append(("assembled", jsonish_text(rng)))
+    return out
+
+
+def jsonish_registry(ss: list[str]) -> dict:
+    """A registry holding the strings `ss` (cyclically) in its string positions: protocol version, sketch name, sketch
+    version, description, value, description, value, value - one string given: every position holds it."""
+    it = iter(ss * 8)
+    n = Node(1, 17, next(it), sketch_name=next(it), sketch_version=next(it), battery_level=87)
+    n.children[1] = Child(1, 36, description=next(it), values={47: next(it)})
+    n.children[2] = Child(2, 6, description=next(it), values={0: next(it), 24: next(it)})
+    return {0: Node(0, 18, "2.0"), 1: n}
+
+
+def jsonish_wire_history(version: str, ss: list[str]) -> list[str]:
+    """The strings `ss` (cyclically) arriving over the wire in every message that stores its payload as text: node
+    presentation (protocol version), sketch name, sketch version, child presentation (description), set (value types
+    read from the tables generated from the code)."""
+    named = gw.T["named"]
+    setreq = sorted(int(x) for x in gw.T["versions"][version]["setreq"])
+    p, s_, i = named["cmdPresentation"], named["cmdSet"], named["cmdInternal"]
+    it = iter(ss * 8)
+    return [f"0;255;{p};0;18;{version}.0", f"1;255;{p};0;17;{next(it)}", f"1;255;{i};0;11;{next(it)}", f"1;255;{i};0;12;{next(it)}",
+            f"1;1;{p};0;36;{next(it)}", f"1;1;{s_};0;{setreq[-1]};{next(it)}", f"1;2;{p};0;6;{next(it)}",
+            f"1;2;{s_};0;{setreq[0]};{next(it)}", f"1;2;{s_};0;{setreq[len(setreq) // 2]};{next(it)}"]
+
+
+def jsonish_groups(js: list, rng, alone_all: bool):
+    """(label, strings of one registry / history): the whole list packed eight to a registry, starting at a random offset
+    (over the seeds every string comes to stand in every kind of position); each document and each random assembly - and
+    each single fragment when `alone_all`, else a rotating third of them - in every string position at once."""
+    off = rng.randint(0, 7)
+    strings = [""] * off + [s for _, s in js]
+    out = [("eight strings", strings[i:i + 8]) for i in range(0, len(strings), 8)]
+    r = rng.randint(0, 2)
+    for i, (kind, s) in enumerate(js):
+        if kind in ("document", "assembled") or (kind == "alone" and (alone_all or i % 3 == r)):
+            out.append((kind + ", in every string position", [s]))
+    return out
+
 
 def direct_registries(rng, tier: str):
     """Directly constructed registries inside C13's domain, boundary content first."""
@@ -609,21 +694,26 @@ def direct_registries(rng, tier: str):
     regs.append(("full 0-255", {i: Node(i, 17, "2.0") for i in range(256)}))
     regs.append(("ids 0-254", {i: Node(i, 17, "2.0") for i in range(255)}))
     regs.append(("ids 1-254", {i: Node(i, 17, "2.0") for i in range(1, 255)}))
+    # strings that look like the file format (JSON / comment / escape syntax): see jsonish_groups
+    js = jsonish_strings(rng, 20 if tier == "quick" else 600)
+    for label, ss in jsonish_groups(js, rng, alone_all=True):
+        regs.append((f"json-like strings ({label})", jsonish_registry(ss)))
     k = 300 if tier == "quick" else 1500
     ints = [0, 1, -1, 17, 18, 255, 256, -6, BIG, -BIG, 2 ** 63, 2 ** 64 + 1]
+    pool = STRINGS + [s for _, s in js if len(s) < 100]
     for _ in range(k):
         reg = {}
         for nid in rng.sample([0, 1, 2, 7, 100, 253, 254, 255, rng.randint(0, 255)], rng.randint(1, 4)):
             if nid in reg:
                 continue
-            n = Node(nid, rng.choice(ints), rng.choice(STRINGS), sketch_name=rng.choice(STRINGS), sketch_version=rng.choice(STRINGS),
+            n = Node(nid, rng.choice(ints), rng.choice(pool), sketch_name=rng.choice(pool), sketch_version=rng.choice(pool),
                      battery_level=rng.choice([0, 1, 50, 99, 100]), heartbeat=rng.choice(ints), sleeping=rng.random() < 0.5)
             for cid in rng.sample([0, 1, 2, 254, 255, BIG, -1, rng.randint(0, 255)], rng.randint(0, 3)):
                 if cid in n.children:
                     continue
-                c = Child(cid, rng.choice(ints), description=rng.choice(STRINGS))
+                c = Child(cid, rng.choice(ints), description=rng.choice(pool))
                 for t in rng.sample(ints, rng.randint(0, 3)):
-                    c.values[t] = rng.choice(STRINGS)
+                    c.values[t] = rng.choice(pool)
                 n.children[cid] = c
             reg[nid] = n
         regs.append(("random", reg))
@@ -715,6 +805,13 @@ def wire_histories(rng, tier: str, pts):
         hs.append(("wire-boundary", gw.Hist(version, True, [], [("recv", ln, (), T0) for ln in lines]), "all"))
     for label, h in systematic_wire_histories():
         hs.append((label, h, "all"))
+    # strings that look like the file format, received as payloads of every message whose payload is stored as text
+    # (no line break inside: a line break ends a line); saved at the end of the history
+    js = [(kind, s) for kind, s in jsonish_strings(rng, 10 if tier == "quick" else 300) if "\n" not in s and "\r" not in s]
+    for i, (label, ss) in enumerate(jsonish_groups(js, rng, alone_all=tier != "quick")):
+        version = lib.VERSIONS[i % len(lib.VERSIONS)]
+        hs.append((f"wire-json-like: {label}", gw.Hist(version if i % 4 else None, True, [],
+                                                      [("recv", ln, (), T0) for ln in jsonish_wire_history(version, ss)]), ()))
     for h in lib.EXTRA_HISTORIES:          # histories on which the code as translated leaves the model (check.tie_search)
         hs.append(("wire-tie-search", h, "all"))
     k = 400 if tier == "quick" else 2500
@@ -1413,7 +1510,10 @@ def session_updates(version: str):
            ("child presented", "1;2;0;0;7;humidity"), ("child presented again", "1;1;0;0;3;changed é"),
            ("value changed", "1;1;1;0;0;21.5"), ("value of a new type", "1;1;1;0;2;1"), ("battery level", "1;255;3;0;0;79"),
            ("sketch name", "1;255;3;0;11;Other"), ("sketch version", "1;255;3;0;12;2.0"), ("id request", "255;255;3;0;3;"),
-           ("value from an unknown child", "1;9;1;0;0;1"), ("value from an unknown node", "9;1;1;0;0;1")]
+           ("value from an unknown child", "1;9;1;0;0;1"), ("value from an unknown node", "9;1;1;0;0;1"),
+           # payloads that look like the file format (see JSON_FRAGMENTS): the file the session's own saver writes is read back
+           ("value that looks like JSON text", "1;1;1;0;24;" + JSONISH_PAYLOADS[0]),
+           ("description / sketch name that looks like JSON text", "1;1;0;0;3;" + JSONISH_PAYLOADS[1])]
     if v in ("2.0", "2.1", "2.2"):
         ups += [("heartbeat", "1;255;3;0;22;200"), ("heartbeat of the other node", "2;255;3;0;22;5")]
     if v == "2.2":
@@ -2165,7 +2265,14 @@ def run_c13(ctx) -> Corr:
                 "one random step, two in the thorough tier; a registry already saved is not saved twice; whatever the registry holds - None, a value of "
                 "another type - is rendered and judged, a registry the model's typed Registry cannot hold by the oracle alone), "
                 "and directly constructed registries (boundary content: "
-                "negative/huge/digit-limit integers, empty/non-ASCII/control-character strings, unsorted insertion order), "
+                "negative/huge/digit-limit integers, empty/non-ASCII/control-character strings, unsorted insertion order; "
+                "strings that look like the file format - fragments of JSON / comment / escape syntax such as a comma before a "
+                "closing brace or bracket, braces, quotes, backslashes, spelt-out escapes, literals, comment openers, line "
+                "breaks, a byte order mark, alone, embedded in ordinary text, with outer blanks, doubled, very long, whole "
+                "documents in the file's own layout, random assemblies - in every string position of a registry (protocol "
+                "version, sketch name, sketch version, description, value), packed eight to a registry and one in every "
+                "position at once, built directly AND received as payloads of node / child presentation, sketch name / "
+                "version and set messages), "
                 "each saved by the real Persistence.save to a real file and loaded by the real Persistence.load into an "
                 "empty dict; oracle = every attribute the property lists is reproduced with the same type, and the "
                 "pymysensors spelling of the saved file loads to the same registry; model compared on: the saved JSON "
@@ -2247,7 +2354,7 @@ def run_c13(ctx) -> Corr:
         corr.count(c["label"].split(":")[0] + (" (saved inside the history)" if c.get("inner") else ""))
         if "facts" in c:
             coverage_of_wire_case(corr, c, kinds)
-        reachable = c["label"].split(":")[0] in ("corpus", "wire-boundary", "wire-random", "wire-systematic", "wire-tie-search")
+        reachable = c["label"].split(":")[0] in ("corpus", "wire-boundary", "wire-random", "wire-systematic", "wire-tie-search", "wire-json-like")
         # ---- oracle (independent of the model)
         bad = ill_typed(nodes)
         if c["domain"]:
